@@ -88,6 +88,25 @@ func runSweeps(tier string, seed int64, langs []int, perPair int) {
 
 // runLongSweeps: all 2048 last words after prefixes far longer than any accepted sentence (256k + 11, 14, ... words:
 // a count that wraps in a narrow integer looks acceptable): none may be accepted
+// runChecksumCover: sentences that together contain every word of every list, each with the checksum as its only
+// defect (the last word replaced by another word of the same list that is wrong for it): the kind of error does not
+// depend on which list words the sentence is made of
+func runChecksumCover(tier string, seed int64) {
+	r := newRng(seed, "checksumcover")
+	for _, lang := range all10 {
+		for k, idx := range coverSentences(lang, r) {
+			if tier == "quick" && (k+lang)%2 != int(seed%2) {
+				continue
+			}
+			maybeCut()
+			m := append([]int(nil), idx...)
+			m[len(m)-1] ^= 1 + r.intn(7) // (the low bits carry checksum: flipping them leaves a list word with a wrong checksum)
+			recCheck(sentence(m, lang, " "), int64(lang), Event{"cls": "checksumcover"})
+			recCheck(sentence(idx, lang, " "), int64(lang), Event{"cls": "validcover", "gen": true})
+		}
+	}
+}
+
 func runLongSweeps(tier string, seed int64) {
 	r := newRng(seed, "longsweep")
 	counts := []int{268, 271, 274, 277, 280, 524}
